@@ -258,3 +258,98 @@ fn c13_flex_vec_items_refused_first_push() {
 }
 
 // (scripted histories for FlexVec<u16, u8> were tried and dropped: with 2-aligned items every step costs CBMC > 15 min)
+
+// ---- the offset-type boundary with a TINY user-defined offset type (L::MAX = 7): the generic FlexVec code is the same for every
+// `L: Flat + Length`, and with a 3-bit range the case "item extent == L::MAX (the last-item marker)" is a 16-byte problem
+// instead of a 255-byte one (which CBMC does not finish, see the c12_lmax_boundary_* harnesses in the thorough tier)
+pub mod tiny {
+    use core::ops::*;
+    use flatty::error::Error;
+    use flatty::traits::{Flat, FlatValidate};
+    use num_traits::{Bounded, FromPrimitive, Num, One, ToPrimitive, Unsigned, Zero};
+
+    #[repr(transparent)]
+    #[derive(Clone, Copy, PartialEq, Eq, PartialOrd, Ord, Debug)]
+    pub struct Tiny(pub u8);
+    pub const TMAX: u8 = 7;
+    unsafe impl FlatValidate for Tiny {
+        unsafe fn validate_unchecked(_: &[u8]) -> Result<(), Error> { Ok(()) }
+    }
+    unsafe impl Flat for Tiny {}
+    macro_rules! op { ($Tr:ident, $f:ident, $TrA:ident, $fa:ident, $e:expr) => {
+        impl $Tr for Tiny { type Output = Tiny; fn $f(self, r: Tiny) -> Tiny { let f: fn(u8, u8) -> u8 = $e; Tiny(f(self.0, r.0)) } }
+        impl $TrA for Tiny { fn $fa(&mut self, r: Tiny) { let f: fn(u8, u8) -> u8 = $e; self.0 = f(self.0, r.0); } }
+    }; }
+    op!(Add, add, AddAssign, add_assign, |a, b| a.wrapping_add(b));
+    op!(Sub, sub, SubAssign, sub_assign, |a, b| a.wrapping_sub(b));
+    op!(Mul, mul, MulAssign, mul_assign, |a, b| a.wrapping_mul(b));
+    op!(Div, div, DivAssign, div_assign, |a, b| a / b);
+    op!(Rem, rem, RemAssign, rem_assign, |a, b| a % b);
+    impl Zero for Tiny { fn zero() -> Self { Tiny(0) } fn is_zero(&self) -> bool { self.0 == 0 } }
+    impl One for Tiny { fn one() -> Self { Tiny(1) } }
+    impl Num for Tiny { type FromStrRadixErr = (); fn from_str_radix(_: &str, _: u32) -> Result<Self, ()> { Err(()) } }
+    impl Unsigned for Tiny {}
+    impl Bounded for Tiny { fn min_value() -> Self { Tiny(0) } fn max_value() -> Self { Tiny(TMAX) } }
+    impl ToPrimitive for Tiny { fn to_i64(&self) -> Option<i64> { Some(self.0 as i64) } fn to_u64(&self) -> Option<u64> { Some(self.0 as u64) } }
+    impl FromPrimitive for Tiny {
+        fn from_i64(n: i64) -> Option<Self> { if n >= 0 && n <= TMAX as i64 { Some(Tiny(n as u8)) } else { None } }
+        fn from_u64(n: u64) -> Option<Self> { if n <= TMAX as u64 { Some(Tiny(n as u8)) } else { None } }
+    }
+}
+
+/// C12 / C13: an item whose extent equals L::MAX cannot be sealed with its real offset (that value is the "last item"
+/// marker): the next push must be refused and change nothing -- or, for a smaller item, succeed and yield two items
+macro_rules! tiny_boundary {
+    ($name:ident, $n:expr) => {
+        #[kani::proof]
+        #[kani::unwind(20)]
+        fn $name() {
+            // BOUNDED: one history per instantiation, 20-byte buffer, item contents symbolic
+            let mut buf: [u8; 20] = kani::any();
+            let x: u8 = kani::any();
+            let y: u8 = kani::any();
+            let v = FlexVec::<[u8; $n], tiny::Tiny>::default_in_place(&mut buf).unwrap();
+            assert!(v.push([x; $n]).is_ok(), "C12: a push that fits was refused");
+            assert!(v.len() == 1, "C12: len() differs from the abstract sequence");
+            let r = v.push([y; $n]).map(|_| ());
+            let mut it = v.iter();
+            let first = it.next().unwrap();
+            assert!(first[0] == x && first[$n - 1] == x, "C12,C13: the first item changed");
+            match r {
+                Ok(()) => {
+                    let second = it.next();
+                    assert!(second.is_some(), "C12: push returned Ok but the new item is not part of the sequence");
+                    let s = second.unwrap();
+                    assert!(s[0] == y && s[$n - 1] == y, "C12: the pushed item differs from what was pushed");
+                    assert!(it.next().is_none(), "C12: iter() yields more items than the abstract sequence");
+                    assert!(v.len() == 2, "C12: len() differs from the abstract sequence");
+                }
+                Err(_) => {
+                    assert!(it.next().is_none(), "C13: a refused push changed the item count");
+                    assert!(v.len() == 1, "C13: a refused push changed len()");
+                }
+            }
+            assert!(FlexVec::<[u8; $n], tiny::Tiny>::validate(v.as_bytes()).is_ok(), "C12: the bytes do not validate after the step");
+        }
+    };
+}
+tiny_boundary!(c12_tiny_offset_extent_eq_max, 6);
+tiny_boundary!(c12_tiny_offset_extent_below_max, 5);
+
+/// C18 / C03: flex::FromIterator with an item whose extent equals L::MAX: refused, and what is left is a valid vector
+#[kani::proof]
+#[kani::unwind(20)]
+fn c18_tiny_offset_from_iterator() {
+    // BOUNDED: 20-byte buffer; current value: one 6-byte item; replacement: two 6-byte items (the first cannot be sealed)
+    let mut buf: [u8; 20] = kani::any();
+    let x: u8 = kani::any();
+    let v = FlexVec::<[u8; 6], tiny::Tiny>::default_in_place(&mut buf).unwrap();
+    assert!(v.push([x; 6]).is_ok(), "C12: a push that fits was refused");
+    let r = v.assign_in_place(flatty::flex::FromIterator::new([[1u8; 6], [2u8; 6]])).map(|_| ());
+    assert!(r.is_err(), "C18: an item extent equal to L::MAX was sealed");
+    assert!(FlexVec::<[u8; 6], tiny::Tiny>::validate(v.as_bytes()).is_ok(), "C18: target bytes no longer validate after a failed assignment");
+    let _ = v.size();
+    let mut n = 0;
+    for it in v.iter() { let _ = it[0]; n += 1; if n > 3 { break; } }
+    assert!(n <= 2, "C18: the left-over vector has more items than were ever written");
+}
